@@ -8,9 +8,11 @@ use serde_json::Value;
 use crate::sim::FaultStats;
 
 pub mod common;
+pub mod c02;
 pub mod c03;
 pub mod c04;
 pub mod c15;
+pub mod c16;
 pub mod server_model;
 
 #[derive(Clone, Copy, Debug, PartialEq)]
@@ -141,7 +143,7 @@ pub struct Property {
 }
 
 pub fn all() -> Vec<Property> {
-    vec![c03::property(), c04::property(), c15::property()]
+    vec![c02::property(), c03::property(), c04::property(), c15::property(), c16::property()]
 }
 
 pub fn get(id: &str) -> Option<Property> {
